@@ -188,6 +188,11 @@ func execOp(line string) string {
 		return execHTTP(t[1], un(t[2]), t[3], un(t[4]))
 	case "livex":
 		return execLiveX(t[1], un(t[3]), t[4:])
+	case "evalast":
+		if len(t) < 3 {
+			return "badop"
+		}
+		return execEvalAst(t[1], un(t[2]))
 	}
 	return "badop"
 }
